@@ -48,6 +48,20 @@ theorem step_setup (s : Req) (op : Op) (hop : isSetup op = true) (hs : Fresh s) 
         exact ⟨⟨hs.1, hs.2, hs.3, hs.4, hs.5, hs.6, dsetdefault_ok _ _ hs.7 (canon_of_encodeName _ _ hn)⟩, hc⟩
       | some v =>
         exact ⟨⟨hs.1, hs.2, hs.3, hs.4, hs.5, hs.6, dappend_ok _ _ _ hs.7 (canon_of_encodeName _ _ hn)⟩, hc⟩
+  | setRaw name values =>
+    simp only [step]
+    cases hn : encodeName name with
+    | error e => exact ⟨hs, hc⟩
+    | ok n =>
+      cases hv : encValues values with
+      | none => exact ⟨hs, hc⟩
+      | some vs =>
+        exact ⟨⟨hs.1, hs.2, hs.3, hs.4, hs.5, hs.6, dset_ok _ _ _ hs.7 (canon_of_encodeName _ _ hn)⟩, hc⟩
+  | remove name =>
+    simp only [step]
+    cases hn : encodeName name with
+    | error e => exact ⟨hs, hc⟩
+    | ok n => exact ⟨⟨hs.1, hs.2, hs.3, hs.4, hs.5, hs.6, dremove_ok _ _ hs.7⟩, hc⟩
   | addCookie k v a =>
     simp only [step]
     cases hk : cookieBytes k v a with
